@@ -98,6 +98,7 @@ type Engine struct {
 	interpPrefixes []string
 	builtPkgs      map[*ssa.Package]bool
 	buildMu        sync.Mutex
+	fnInfos        sync.Map
 	verbose        bool
 	crossSolvers   []SolverKind
 	crossSeen      map[string]bool
